@@ -2515,15 +2515,43 @@ def _r108_cc1(P, rep):
 
 
 # ------------------------------------------------------------------------------------------------ R10.11
+def _printf_pieces(fmt):
+    """a format string whose only conversions are plain %s (and %%): list of literal strings and None (one per %s); None if anything else occurs"""
+    out, lit, i = [], '', 0
+    while i < len(fmt):
+        c = fmt[i]
+        if c != '%':
+            lit += c
+            i += 1
+            continue
+        nx = fmt[i + 1:i + 2]
+        if nx == '%':
+            lit += '%'
+        elif nx == 's':
+            if lit:
+                out.append(lit)
+            lit = ''
+            out.append(None)
+        else:
+            return None
+        i += 2
+    if lit:
+        out.append(lit)
+    return out
+
+
 def r1011_define_option(P, rep):
     """`-D name`, `-D name=body`, `-U name` select text exactly like `#define name 1`, `#define name body`, `#undef name` in front of the first line (gcc
-    manual; with `-D name=` the body is empty, as in `#define name`).  The path from the option word to the macro table has three links:
+    manual; with `-D name=` the body is empty, as in `#define name`; the name is lexed as in the directive, so `-D'F(x)=x+1'` defines the function-like
+    macro F).  The path from the option word to the macro table has three links:
     (1) the option loop hands the word to define()/undef_macro() -- R17.9 of C17 decides that on symbolic command lines -- (2) define() splits it at the
-    first `=` -- likewise -- (3) define_macro(name, body) installs an object-like macro under that name whose replacement list is the tokenised body text.
+    first `=` -- likewise -- (3) define_macro(name, body) builds the line `name body` in a private string, decodes it like the text of a file, tokenises it and
+    hands the tokens to read_macro_definition(), the reader of `#define` (cut by contract: what it makes of a line is R09.6/R10.x's subject).
     (1) and (2) are re-issued from C17 (they state which text -D selects, which is this property); (3) is decided here."""
     rep.rule('R10.11', 'command-line macro options select the text their textual counterparts select: -Dname is `#define name 1`, -Dname=body is `#define name body` with '
-             'body the whole text after the first `=` (possibly empty), -Uname is `#undef name`; define_macro installs an object-like macro under the given name whose '
-             'replacement list is the tokenised body', floor=FLOORS['R10.11'])
+             'body the whole text after the first `=` (possibly empty), -Uname is `#undef name`; define_macro hands the reader of #define, once, the tokens of a '
+             'private line that is the given name, white space, the given body and a line end, decoded like the text of a file, and enters nothing else into '
+             'the macro table', floor=FLOORS['R10.11'])
     from ..report import Report, reissue
     from . import c17
     sub = Report('C17')
@@ -2542,6 +2570,16 @@ def r1011_define_option(P, rep):
         rep.undecided('R10.11', '%s:%s:vanished' % (U, fn), 'define_macro vanished')
         return
     where = '%s:%d' % (U, pu.fn(fn).line)
+    # the reader of `#define`: cut by contract (it reads one definition from the line that starts at its token argument and stores the first token of the
+    # next line through its first argument).  That it is the reader of the directive is checked: the dispatcher calls it.
+    READER = 'read_macro_definition'
+    if READER not in pu.functions or not pu.fn('preprocess2').calls(READER):
+        rep.undecided('R10.11', '%s:%s:installs' % (U, fn), '%s() is no longer the function the dispatcher reads a #define with: the contract cut of the '
+                      'definition reader does not apply' % READER, where=where)
+        return
+    if len(pu.params(READER)) != 2:
+        rep.undecided('R10.11', '%s:%s:installs' % (U, fn), '%s() no longer takes (Token **rest, Token *tok): its contract cut does not apply' % READER, where=where)
+        return
 
     def rec(name, mkres):
         def h(it, ctx, n, args):
@@ -2549,24 +2587,31 @@ def r1011_define_option(P, rep):
             ctx.emit('call', name, args, n.line, r, None)
             return r
         return h
-    # The body is text-processed before it is tokenised (\u/\U escapes are decoded in place, on a private copy).  Contract cuts: strdup(s) is a fresh
-    # writable string with the text of s; convert_universal_chars(p) rewrites *p in place and is the identity on text without a backslash (its loop copies
-    # every byte that does not start a \u/\U escape), so for the clauses below the text of its argument stays the text it had.
+    # The line is text-processed before it is tokenised (\u/\U escapes are decoded in place, on a private string).  Contract cuts: strdup(s) is a fresh
+    # writable string with the text of s; format(f, ...) a fresh writable string with the text printf would print; convert_universal_chars(p) rewrites *p
+    # in place and is the identity on text without a backslash (its loop copies every byte that does not start a \u/\U escape), so for the clauses below the
+    # text of its argument stays the text it had.
     DECODER = 'convert_universal_chars'
-    rep.assumptions += ['R10.11: strdup(s) yields a private string with the text of s; %s(p) rewrites *p in place and leaves text without a backslash unchanged '
-                        '(contract cut; that a -D body passes through it, as the text of a file does in tokenize_file, is an obligation)' % DECODER]
+    rep.assumptions += ['R10.11: strdup(s) yields a private string with the text of s, format(f, ...) a private string with the text printf prints for (f, ...); '
+                        '%s(p) rewrites *p in place and leaves text without a backslash unchanged (contract cut; that the line of a -D option passes through it, '
+                        'as the text of a file does in tokenize_file, is an obligation); %s(&t, tok) reads the definition `#define` would read from the line that '
+                        'starts at tok (contract cut: it is the function the dispatcher calls for the directive)' % (DECODER, READER)]
     du, dec = P.find_function(DECODER)
     if dec is not None and ((dec.type or '').split('(')[0].strip() != 'void' or len([c for c in dec.inner if c.kind == 'ParmVarDecl']) != 1):
         rep.undecided('R10.11', '%s:%s:installs' % (U, fn), '%s is no longer an in-place pass over one string: its contract cut does not apply' % DECODER, where=where)
         return
 
-    def h_strdup(it, ctx, n, args):
-        r = Sym(ctx.fresh('strdup'), 'char *')
-        ctx.emit('call', 'strdup', args, n.line, r, None)
-        return r
+    def fresh_string(name):
+        def h(it, ctx, n, args):
+            r = Sym(ctx.fresh(name), 'char *')
+            ctx.emit('call', name, args, n.line, r, None)
+            return r
+        return h
+    COPIERS = ('strdup', 'format')
     it = PPInterp(P, pu, {'cut': {'new_file': rec('new_file', lambda ctx: Obj('File', lazy=True, label='file')),
-                                  'tokenize': rec('tokenize', lambda ctx: Obj('Token', lazy=True, label='body-tokens')),
-                                  'strdup': h_strdup, DECODER: rec(DECODER, lambda ctx: None),
+                                  'tokenize': rec('tokenize', lambda ctx: Obj('Token', lazy=True, label='line-tokens')),
+                                  'strdup': fresh_string('strdup'), 'format': fresh_string('format'), DECODER: rec(DECODER, lambda ctx: None),
+                                  READER: cut_tok(READER, rest_arg=0, tok_arg=1, ret=None),
                                   'add_macro': rec('add_macro', lambda ctx: Obj('Macro', lazy=True, label='macro')),
                                   'hashmap_put': rec('hashmap_put', lambda ctx: None), 'hashmap_put2': rec('hashmap_put2', lambda ctx: None)},
                           'lazy_field': hook, 'loop_limit': 2})
@@ -2583,80 +2628,149 @@ def r1011_define_option(P, rep):
         file_text_decoded = bool(tf.calls(DECODER))
         if not file_text_decoded:
             file_text_decoded = None
-    literal_bodies = None
+    literal_args = None
     for un in (U, 'main.c'):
         if un not in P.unit_names:
             continue
         for fname, fd in sorted(P.unit(un).functions.items()):
             k = 0
             for c in fd.calls(fn):
-                a = c.args()
-                if len(a) > 1 and a[1].strip_all().kind == 'StringLiteral':
+                if any(x.strip_all().kind == 'StringLiteral' for x in c.args()[:2]):
                     k += 1
-            if k and (literal_bodies is None or k > literal_bodies[1]):
-                literal_bodies = ('%s()' % fname, k)
+            if k and (literal_args is None or k > literal_args[1]):
+                literal_args = ('%s()' % fname, k)
+    KEYS = ('accepts-every-body', 'one-macro', 'only-the-define-reader-installs', 'reader-gets-the-tokenised-line', 'under-the-given-name',
+            'name-and-body-separated', 'body-is-the-tokenised-text', 'line-ends-after-the-body', 'name-ucn-decoded-like-file-text',
+            'body-ucn-decoded-like-file-text', 'body-decoded-in-a-private-copy')
     fails = {}
     unknown = {}
     nret = 0
     for ctx, out in res:
         if out[0] != 'ret':
-            fails.setdefault('accepts-every-body', 'define_macro can end in %s() without defining the macro' % out[1])
+            fails.setdefault('accepts-every-body', 'define_macro can end in %s() itself, without handing the line to the reader of #define' % out[1])
             continue
         nret += 1
-        nf, tk, am = calls(ctx, 'new_file'), calls(ctx, 'tokenize'), calls(ctx, 'add_macro')
-        if len(am) != 1 or len(am[0][2]) < 3:
-            fails.setdefault('one-macro', 'define_macro does not install exactly one macro with add_macro (%d calls)' % len(am))
+        nf, tk, rd = calls(ctx, 'new_file'), calls(ctx, 'tokenize'), calls(ctx, READER)
+        direct = sorted(set(e[1] for e in calls(ctx, ('add_macro', 'hashmap_put', 'hashmap_put2'))))
+        if direct:
+            fails.setdefault('only-the-define-reader-installs', 'define_macro enters a macro into the table itself (%s): the name given is then not lexed like the name of a '
+                             '#define (-D\'F(x)=x+1\' defines a macro no identifier can name)' % ', '.join(direct))
+        if len(rd) != 1 or len(rd[0][2]) < 2:
+            fails.setdefault('one-macro', 'define_macro does not read exactly one definition with %s (%d calls)' % (READER, len(rd)))
             continue
-        nm, objlike, body = am[0][2][0], settle(it, am[0][2][1]), settle(it, am[0][2][2])
-        if nm is not a_name:
-            fails.setdefault('under-the-given-name', 'the macro is installed under another name than the one given (%r)' % (nm,))
-        if not (isinstance(objlike, int) and objlike == 1):
-            fails.setdefault('object-like', 'the macro is not installed as an object-like macro (%r): `-DX=...` then needs an argument list to be replaced' % (objlike,))
-        src = [e for e in tk if e[4] is body]
+        line = settle(it, rd[0][2][1])
+        src = [e for e in tk if e[4] is line]
         if len(tk) != 1 or not src:
-            fails.setdefault('body-is-the-tokenised-text', 'the replacement list handed to add_macro (%r) is not the result of tokenising the body text (once): -Dname=body then '
-                             'expands to other tokens than `#define name body`' % (body,))
-        else:
-            f = settle(it, src[0][2][0]) if src[0][2] else None
-            mk = [e for e in nf if e[4] is f]
-            text = mk[0][2][2] if mk and len(mk[0][2]) >= 3 else None
-            pos = {id(e): i for i, e in enumerate(ctx.events)}
-            # the string handed to new_file: the body itself, or a strdup copy of it (copies of copies followed).  chain = [(string, index of the event
-            # up to which a pass over that string still reaches the tokenised text)]: the tokenize call for the string itself, the copying strdup for its source
-            chain, cur, limit = [], text, pos[id(src[0])]
-            for _ in range(8):
-                chain.append((cur, limit))
-                cp = [e for e in calls(ctx, 'strdup') if e[4] is cur and e[2]]
-                if not cp:
-                    break
-                cur, limit = cp[0][2][0], pos[id(cp[0])]
-            if text is None or cur is not a_buf:
-                fails.setdefault('body-is-the-tokenised-text', 'the text that is tokenised for the replacement list is not the body text given to define_macro')
-                continue
-            # every pass over that text before it is tokenised: only the decoder (the identity on text without a backslash, by contract) is known
-            touched = [(e, s) for e in ctx.events if e[0] == 'call' and e[1] not in ('strdup', 'new_file') for s, lim in chain
-                       if pos[id(e)] < lim and any(a is s for a in e[2])]
-            other = sorted(set(e[1] for e, s in touched if e[1] != DECODER))
-            if other:
-                unknown.setdefault('installs', 'the body text is handed to %s() before it is tokenised: what text remains is not known' % ', '.join(other))
-                continue
+            fails.setdefault('reader-gets-the-tokenised-line', 'the tokens handed to %s (%r) are not the result of tokenising the line (once, from its first token): '
+                             '-Dname=body then defines other text than `#define name body`' % (READER, line))
+            continue
+        f = settle(it, src[0][2][0]) if src[0][2] else None
+        mk = [e for e in nf if e[4] is f]
+        text = mk[0][2][2] if mk and len(mk[0][2]) >= 3 else None
+        if text is None:
+            unknown.setdefault('installs', 'the File that is tokenised is not made by new_file() on this path: which text it holds is not known')
+            continue
+        pos = {id(e): i for i, e in enumerate(ctx.events)}
+        # derivation of the tokenised text: pieces = literal strings and the two arguments, in order; strings = [(string, index of the event up to which a
+        # pass over that string still reaches the tokenised text, arguments whose text it holds)]: the tokenize call for the tokenised string itself, the
+        # copying strdup/format for the strings copied
+        strings = []
+
+        def derive(v, limit, depth=0):
+            v = settle(it, v)
+            if v is a_name or v is a_buf:
+                strings.append((v, limit, frozenset([id(v)])))
+                return [v]
+            if isinstance(v, str):
+                return [v]
+            if depth > 8:
+                return None
+            cp = [e for e in calls(ctx, COPIERS) if e[4] is v and e[2]]
+            if not cp:
+                return None
+            e = cp[0]
+            if e[1] == 'strdup':
+                parts = [None]
+                operands = [e[2][0]]
+            else:
+                fmt = settle(it, e[2][0])
+                parts = _printf_pieces(fmt) if isinstance(fmt, str) else None
+                operands = list(e[2][1:])
+                if parts is None or parts.count(None) != len(operands):
+                    return None
+            out_ = []
+            for q in parts:
+                if q is not None:
+                    out_.append(q)
+                    continue
+                sub_ = derive(operands.pop(0), pos[id(e)], depth + 1)
+                if sub_ is None:
+                    return None
+                out_ += sub_
+            strings.append((v, limit, frozenset(id(x) for x in out_ if not isinstance(x, str))))
+            return out_
+        pieces = derive(text, pos[id(src[0])])
+        if pieces is None:
+            unknown.setdefault('installs', 'the text that is tokenised is not built from the arguments of define_macro by strdup()/format("..%s..") alone: '
+                               'what text it is is not known')
+            continue
+        merged = []
+        for q in pieces:
+            if isinstance(q, str) and merged and isinstance(merged[-1], str):
+                merged[-1] += q
+            elif q != '':
+                merged.append(q)
+        blank = lambda t: all(c in ' \t' for c in t)
+        lead = merged[0] if merged and isinstance(merged[0], str) else ''
+        body_ = merged[1:] if lead else merged
+        i_name = [i for i, q in enumerate(body_) if q is a_name]
+        i_buf = [i for i, q in enumerate(body_) if q is a_buf]
+        if not (blank(lead) and i_name == [0]):
+            fails.setdefault('under-the-given-name', 'the line read as a definition does not begin with the name given (once): the macro is then defined under another name')
+        if len(i_buf) != 1 or not i_name or i_buf[0] < i_name[0]:
+            fails.setdefault('body-is-the-tokenised-text', 'the line read as a definition does not hold the body text given to define_macro (once) after the name: -Dname=body '
+                             'then expands to other tokens than `#define name body`')
+            continue
+        between = body_[i_name[0] + 1:i_buf[0]]
+        sep = between[0] if len(between) == 1 and isinstance(between[0], str) else ('' if not between else None)
+        if sep is None or sep == '' or not sep.isspace() or '\n' in sep:
+            fails.setdefault('name-and-body-separated', 'name and body are not separated by white space in the line read as a definition (%r between them): -DA=1 then does not '
+                             'read as `#define A 1`, and a body that starts with `(` reads as a parameter list' % (sep if sep is not None else between,))
+        elif not blank(sep):
+            unknown.setdefault('name-and-body-separated', 'name and body are separated by %r: whether the tokenizer passes over that like over a blank is not known here' % sep)
+        tail = body_[i_buf[0] + 1:]
+        end = tail[0] if len(tail) == 1 and isinstance(tail[0], str) else ('' if not tail else None)
+        if end is None or not (end.endswith('\n') and blank(end[:-1])):
+            fails.setdefault('line-ends-after-the-body', 'the line read as a definition does not end with a line end right after the body (%r follows it): the reader of '
+                             '#define takes the tokens up to the first one at the beginning of a line' % (end if end is not None else tail,))
+        # every pass over those strings before the text is tokenised: only the decoder (the identity on text without a backslash, by contract) is known
+        touched = [(e, s, has) for e in ctx.events if e[0] == 'call' and e[1] not in COPIERS + ('new_file',) for s, lim, has in strings
+                   if pos[id(e)] < lim and any(a is s for a in e[2])]
+        other = sorted(set(e[1] for e, s, has in touched if e[1] != DECODER))
+        if other:
+            unknown.setdefault('installs', 'the text of the line is handed to %s() before it is tokenised: what text remains is not known' % ', '.join(other))
+            continue
+        decoded = set()
+        for e, s, has in touched:
+            decoded |= has
+        for arg, k, what, ex in ((a_name, 'name-ucn-decoded-like-file-text', 'name', '-D\'\\u00e9=1\' then defines another name than `#define \\u00e9 1`'),
+                                 (a_buf, 'body-ucn-decoded-like-file-text', 'body', '-DM="\\u00e9" then defines another string than `#define M "\\u00e9"`')):
             if file_text_decoded is None:
-                unknown.setdefault('body-ucn-decoded-like-file-text', 'tokenize_file() does not hand the text of a file to %s(): where a file gets its \\u/\\U decoding, '
-                                   'and so what a -D body must get, was not found' % DECODER)
-            elif not touched:
-                fails.setdefault('body-ucn-decoded-like-file-text', 'the body is tokenised without the \\u/\\U decoding: -DM="\\u00e9" then defines another string than '
-                                 '`#define M "\\u00e9"` in a file, whose text tokenize_file() decodes with %s()' % DECODER)
-            if any(s is a_buf for e, s in touched) and literal_bodies:
-                fails.setdefault('body-decoded-in-a-private-copy', '%s() rewrites the string given to define_macro in place, and %s passes string literals (%d calls)'
-                                 % (DECODER, literal_bodies[0], literal_bodies[1]))
+                unknown.setdefault(k, 'tokenize_file() does not hand the text of a file to %s(): where a file gets its \\u/\\U decoding, '
+                                   'and so what the line of a -D option must get, was not found' % DECODER)
+            elif id(arg) not in decoded:
+                fails.setdefault(k, 'the %s is tokenised without the \\u/\\U decoding: %s in a file, whose text tokenize_file() decodes with %s()' % (what, ex, DECODER))
+        inplace = [('name' if s is a_name else 'buf') for e, s, has in touched if s is a_name or s is a_buf]
+        if inplace and literal_args:
+            fails.setdefault('body-decoded-in-a-private-copy', '%s() rewrites the string given to define_macro (%s) in place, and %s passes string literals (%d calls)'
+                             % (DECODER, ', '.join(sorted(set(inplace))), literal_args[0], literal_args[1]))
     if nret == 0 and not fails:
         rep.undecided('R10.11', '%s:%s:installs' % (U, fn), 'define_macro has no returning path', where=where)
         return
     if 'installs' in unknown:
         rep.undecided('R10.11', '%s:%s:installs' % (U, fn), unknown['installs'], where=where)
         return
-    for k in ('accepts-every-body', 'one-macro', 'under-the-given-name', 'object-like', 'body-is-the-tokenised-text', 'body-ucn-decoded-like-file-text',
-              'body-decoded-in-a-private-copy'):
+    for k in KEYS:
         if k in unknown and k not in fails:
             rep.undecided('R10.11', '%s:%s:%s' % (U, fn, k), unknown[k], where=where)
         else:
